@@ -125,7 +125,7 @@ static void step(world &W, const std::string &opstr) {
     upd(W.c.a, W.c.i, nv);
   } else if (op == "storew") { // a[i] := variable w (another variable than the one used by initv/storev) with symbolic bounds
     term nw = fresh("nw");
-    term l = W.have_bounds ? W.bl : fresh("l"), u = W.have_bounds ? W.bu : fresh("u");
+    term l = W.have_bounds ? W.bl : term(0), u = W.have_bounds ? W.bu : term(9); // no earlier bounds: w ranges over [0,9]
     sx::assume(l <= nw && nw <= u);
     W.c.w = nw;
     W.D -= W.Ww;
@@ -135,7 +135,7 @@ static void step(world &W, const std::string &opstr) {
     upd(W.c.a, W.c.i, nw);
   } else if (op == "rangew") { // forall k in [k1,k2]: a[k*esz] := w
     term nw = fresh("nw");
-    term l = W.have_bounds ? W.bl : fresh("l"), u = W.have_bounds ? W.bu : fresh("u");
+    term l = W.have_bounds ? W.bl : term(0), u = W.have_bounds ? W.bu : term(9); // no earlier bounds: w ranges over [0,9]
     sx::assume(l <= nw && nw <= u);
     W.c.w = nw;
     W.D -= W.Ww;
